@@ -3,7 +3,7 @@ package main
 // Real-transport peers for the scripted-peer engine (same file in harness/cmd/c07 and cmd/c11):
 // every backend through which a peer's bytes reach runProtocol —
 //   listeners:  tcp, tls (TCP listener with a server certificate; peer speaks TLS), tlsraw (same
-//               listener, peer writes plain bytes into the TLS handshake), udp, ws (websocket),
+//               listener, peer writes plain bytes into the TLS handshake), udp, ws / wss (websocket, plain and TLS),
 //   dialers:    tcp-dial, udp-dial, ws-dial (the NODE dials a listener run by the harness, which
 //               then plays the hostile or well-behaved remote end),
 //   embedded:   ext (ExternalBackend over a framed net.Conn), extws (ExternalBackend over a
@@ -294,16 +294,21 @@ func openSocketPeer(ctx context.Context, n *netceptor.Netceptor, transport strin
 		p := &sockPeer{kind: "udp", conn: c}
 		p.reader()
 		return p, nil
-	case "ws":
-		li, err := backends.NewWebsocketListener("127.0.0.1:0", nil, lg, nil, nil)
+	case "ws", "wss":
+		var scfg *tls.Config
+		scheme := "ws://"
+		if transport == "wss" {
+			scfg, scheme = serverTLS(), "wss://"
+		}
+		li, err := backends.NewWebsocketListener("127.0.0.1:0", scfg, lg, nil, nil)
 		if err == nil {
 			err = n.AddBackend(li, mods...)
 		}
 		if err != nil {
 			return nil, err
 		}
-		d := websocket.Dialer{HandshakeTimeout: 2 * time.Second}
-		c, resp, err := d.Dial("ws://"+li.Addr().String()+"/", nil)
+		d := websocket.Dialer{HandshakeTimeout: 2 * time.Second, TLSClientConfig: &tls.Config{InsecureSkipVerify: true}} //nolint:gosec
+		c, resp, err := d.Dial(scheme+li.Addr().String()+"/", nil)
 		if err != nil {
 			return nil, err
 		}
